@@ -427,7 +427,61 @@ def main(tier="quick", seed=0, procs=None, only=None):
         cases = [c for c in cases if only in c.name]
     run_catalogue(run, cases, seed=seed, procs=procs)
     dtype_part(run)
+    try:
+        shape_part(run, seed)
+    except Exception as e:
+        run.error("shape part failed", e)
     return run.finish()
+
+
+def shape_part(run, seed):
+    """bounded, native: the trajectory does not depend on the SHAPE of a parameter -- 0-d, one-element, zero-extent and ordinary parameters side by side in one optimizer,
+    every option set, float32 and float64, five steps with fresh gradients (eps not negligible against the gradients for Adam): each element follows the rule evaluated
+    in float64; shape, dtype and array identity are kept.  (The symbolic cases above use (2,) and (1,2) parameters; a 0-d gradient degenerates into a NumPy scalar.)"""
+    import synapgrad.optim.optimizers as O
+    from synapgrad.nn.modules import Parameter
+    from synapgrad.tensor import Tensor
+    rng = np.random.RandomState(seed + 8)
+    shapes = [(), (1,), (1, 1), (0,), (2, 3)]
+    for kind in ("SGD", "Adam", "AdamW"):
+        for o in option_sets(kind):
+            for dt in (np.float32, np.float64):
+                hp = {"lr": 0.05, "maximize": o.get("maximize", False), "wd": 0.1 if o.get("wd") else None}
+                if kind == "SGD":
+                    hp.update({"momentum": 0.9 if o.get("momentum") else None, "dampening": 0.3 if o.get("dampening") else None, "nesterov": o.get("nesterov", False)})
+                    mk = lambda ps: O.SGD(ps, lr=hp["lr"], momentum=hp["momentum"] or 0, dampening=hp["dampening"] or 0, weight_decay=hp["wd"] or 0, nesterov=hp["nesterov"], maximize=hp["maximize"])
+                else:
+                    hp.update({"b1": 0.8, "b2": 0.9, "eps": 1e-2})
+                    mk = lambda ps: getattr(O, kind)(ps, lr=hp["lr"], betas=(hp["b1"], hp["b2"]), eps=hp["eps"], weight_decay=hp["wd"] or 0, maximize=hp["maximize"])
+                P = [Parameter(np.asarray(rng.rand(*sh) + 0.5).astype(dt), requires_grad=True) for sh in shapes]
+                arrs = [p.data for p in P]
+                exp = [np.array(p.data, dtype=np.float64) for p in P]
+                st = [{} for _ in P]
+                opt = mk(P)
+                run.rt(("shape", kind, tuple(sorted(o.items())), np.dtype(dt).name))
+                bad = None
+                try:
+                    for t in range(1, 6):
+                        opt.zero_grad()
+                        for i, p in enumerate(P):
+                            g = np.asarray(rng.rand(*shapes[i]) * 0.02 - 0.01 + (0.5 if t % 2 else -0.25)).astype(dt)
+                            (p * 1.0).backward(Tensor(np.asarray(g)))
+                            exp[i] = (sgd_rule if kind == "SGD" else (lambda a, b, c, d, e: adam_rule(a, b, c, d, e, kind == "AdamW")))(exp[i], np.asarray(g, dtype=np.float64), st[i], hp, t)
+                        opt.step()
+                        for i, p in enumerate(P):
+                            if p.data is not arrs[i] or p.data.dtype != dt or tuple(p.data.shape) != shapes[i]:
+                                bad = "after step %d the parameter of shape %s has shape %s dtype %s, same array object: %s" % (t, shapes[i], p.data.shape, p.data.dtype, p.data is arrs[i])
+                            elif not np.allclose(np.asarray(p.data, dtype=np.float64), exp[i], rtol=2e-4 if dt == np.float32 else 1e-10, atol=1e-6 if dt == np.float32 else 1e-12):
+                                bad = "after step %d the parameter of shape %s holds %s, the rule gives %s" % (t, shapes[i], np.asarray(p.data).tolist(), exp[i].tolist())
+                            if bad:
+                                break
+                        if bad:
+                            break
+                except Exception as e:
+                    bad = "raised %s: %s" % (type(e).__name__, e)
+                if bad:
+                    run.violation(OPT + kind + ".step.follows_update_rule", "%s %s %s, parameters of shapes %s in one optimizer: %s" % (kind, o, np.dtype(dt).name, shapes, bad),
+                                  key={"optimizer": kind, **o, "dtype": np.dtype(dt).name, "clause": "any parameter shape"}, replay={"optimizer": kind, "options": o, "dtype": np.dtype(dt).name, "what": bad})
 
 
 def dtype_part(run):
